@@ -93,6 +93,10 @@ func CatalogueForms() []Form {
 		c("method_value_val_of_deref", "mv := sp.sum\nsp.f = 77\nr = mv()"),
 		c("method_value_called_twice", "mv := sp.addTo\nr = mv(1)\nr = r*10 + mv(2)"),
 		c("method_value_as_arg", "r = apply(sp.addTo, x)"),
+		// an interface-typed parameter that is not the first one
+		c("iface_second_param_struct", "q := NSquare{side: y % 1000}\nr = nmeasure2(x%7, q)"),
+		c("iface_second_param_field", "cv := &NCanvas{sq: NSquare{side: x % 1000}, scale: 2}\nr = nmeasure2(x%7, cv.sq)"),
+		c("iface_first_param_struct", "q := NSquare{side: y % 1000}\nr = nmeasure(q)"),
 		// fields of function type are fields, not methods
 		c("func_field_value", "fs := FS{fn: mkAdder(1)}\ng := fs.fn\nr = g(x)"),
 		c("func_field_call", "fs := FS{fn: mkAdder(1)}\nr = fs.fn(x)"),
